@@ -1,5 +1,7 @@
 // C01 harness TU 5: LimP4 audit configurations (inline crew, library HashTraits with an arithmetic key, odd item sizes, struct / string values)
+#define MOMO_INCLUDE_OLD_HASH_BUCKETS
 #include "c01_harness.h"
+#include "momo/details/HashBucketLimP1.h"
 using namespace momo;
 typedef HashBucketLimP4<3> L3; typedef HashBucketLimP4<4> L4;
 static const Reg regs[] = {
@@ -13,10 +15,56 @@ static const Reg regs[] = {
 };
 // n1 40 <H> op...: a REAL BucketLimP4<uint64_t item, 4, hash-code-part getter>: a<hashCode> AddCrt (L = 4, probe = (hc >> 8) & 7), r<idx> Remove,
 // c Clear; prints hashCount, mShortHashes[0..hashCount-1], the pointer-state bits (memPoolIndex - 1) and whether the pointer is null
+// n1 41 <N> <skip> op...: a REAL BucketLimP1<item, N> with real memory pools (item = uint64_t: skipFirstMemPool = (N > 1); a 16-byte item
+// with alignment 8: skipFirstMemPool = false): a AddCrt (when not full), r<idx> Remove; prints after every op mState, whether the item pointer
+// is non-null, and for AddCrt the position (returned iterator - GetBounds().GetBegin()); the generated Gen_LimP1_ops functions must agree
+struct C01Pair16 { uint64_t a, b; };
+template<typename It, size_t N>
+static void leaf_limp1(const std::vector<std::string>& w, bool skip)
+{
+	typedef internal::HashSetBucketItemTraits<HashSetItemTraits<It, MemManagerDefault>> BIT;
+	typedef internal::BucketLimP1<BIT, N, MemPoolParams<>> Bk;
+	if (Bk::Params::skipFirstMemPool != skip) { puts("?skip"); return; }
+	MemManagerDefault mm;
+	static typename Bk::Params* params = new typename Bk::Params(mm);
+	Bk* b = new Bk();
+	std::string out = std::to_string(unsigned(b->mState));
+	for (size_t i = 3; i < w.size(); ++i)
+	{
+		char op = w[i][0]; size_t arg = w[i].size() > 1 ? size_t(std::stoull(w[i].substr(1))) : 0;
+		if (op == 'a')
+		{
+			if (b->IsFull()) continue;
+			It* r = b->AddCrt(*params, [] (It* p) { new (p) It(); }, 0, 4, 0);
+			out += " a" + std::to_string(unsigned(b->mState)) + ":" + (b->pvGetItems() == nullptr ? "0" : "1") + ":" + std::to_string(size_t(r - b->GetBounds(*params).GetBegin()));
+		}
+		else if (op == 'r')
+		{
+			auto bounds = b->GetBounds(*params);
+			if (arg >= bounds.GetCount()) continue;
+			It* r = b->Remove(*params, bounds.GetBegin() + arg, [] (It& src, It& dst) { dst = src; });
+			out += " r" + std::to_string(unsigned(b->mState)) + ":" + (b->pvGetItems() == nullptr ? "0" : "1") + ":" + (r == nullptr ? "n" : std::to_string(size_t(r - b->GetBounds(*params).GetBegin())));
+		}
+		out += std::string(" f") + (b->IsFull() ? "1" : "0") + (b->WasFull() ? "1" : "0");
+	}
+	puts(out.c_str());
+	b->Clear(*params); delete b;
+}
 static void leaf(const std::vector<std::string>& w)
 {
 	typedef internal::HashSetBucketItemTraits<HashSetItemTraits<uint64_t, MemManagerDefault>> BIT;
 	typedef internal::BucketLimP4<BIT, 4, MemPoolParams<>, true> Bk;
+	if (w.size() >= 3 && w[0] == "41")
+	{
+		int n = std::stoi(w[1]); bool skip = w[2] == "1";
+		if (n == 1 && !skip) leaf_limp1<uint64_t, 1>(w, skip);
+		else if (n == 2 && skip) leaf_limp1<uint64_t, 2>(w, skip);
+		else if (n == 4 && skip) leaf_limp1<uint64_t, 4>(w, skip);
+		else if (n == 2 && !skip) leaf_limp1<C01Pair16, 2>(w, skip);
+		else if (n == 3 && !skip) leaf_limp1<C01Pair16, 3>(w, skip);
+		else puts("?limp1");
+		return;
+	}
 	if (w.size() < 2 || w[0] != "40") { puts("?leaf"); return; }
 	MemManagerDefault mm;
 	static Bk::Params* params = new Bk::Params(mm);		// pools live for the whole run
